@@ -306,6 +306,16 @@ func (ns *normState) localIdentEdits(c *inlCallee, suffix string, from, to token
 	return eds
 }
 
+// checkSpec describes "lhs := f(…); if <test of result j> { T }" for the check mode of
+// buildInline: every return of f is sent straight to T (copied), past the if, or to the if.
+type checkSpec struct {
+	lhs      []string // assignment targets, one per result
+	j        int      // index of the tested result
+	takeWhen string   // "nonnil", "nil", "true", "false": value of result j for which T runs
+	then     string   // text of the block T (with braces)
+	used     map[string]bool
+}
+
 type inlSite struct {
 	call   *ast.CallExpr
 	callee *inlCallee
@@ -574,6 +584,38 @@ func (ns *normState) buildInline(s *inlSite, mode string) (pre string, block str
 		}
 		var text string
 		switch mode {
+		case "check":
+			cs := ns.check
+			text = strings.Join(cs.lhs, ", ") + " = " + vals
+			known := ""
+			if len(r.Results) == len(cs.lhs) {
+				ev := strings.TrimSpace(ns.srcText(r.Results[cs.j].Pos(), r.Results[cs.j].End()))
+				switch cs.takeWhen {
+				case "nonnil", "nil":
+					if ev == "nil" {
+						known = "nil"
+					} else if ce, isCall := r.Results[cs.j].(*ast.CallExpr); isCall {
+						switch strings.TrimSpace(ns.srcText(ce.Fun.Pos(), ce.Fun.End())) {
+						case "fmt.Errorf", "errors.New", "errors.Errorf":
+							known = "nonnil"
+						}
+					}
+				case "true", "false":
+					if ev == "true" || ev == "false" {
+						known = ev
+					}
+				}
+			}
+			switch {
+			case known == "":
+				text += "\ngoto Check" + suffix
+				cs.used["Check"] = true
+			case known == cs.takeWhen:
+				text += "\n" + cs.then
+			default:
+				text += "\ngoto Cont" + suffix
+				cs.used["Cont"] = true
+			}
 		case "branch":
 			switch strings.TrimSpace(vals) {
 			case "true":
@@ -639,6 +681,10 @@ func (ns *normState) buildInline(s *inlSite, mode string) (pre string, block str
 		eds = append(kept, posEdit{r.Pos(), r.End(), text})
 	}
 	inner := ns.render(body.Lbrace+1, body.Rbrace, eds)
+	if mode == "check" {
+		b.WriteString(inner + "\n}")
+		return pre, b.String(), []string{"Check" + suffix, "Cont" + suffix}, true
+	}
 	if mode == "branch" {
 		if !branchUsed["T"] {
 			temps[0] = ""
@@ -843,8 +889,10 @@ func (ns *normState) inlineInBlock(pk *packages.Package, file *ast.File, body *a
 		return false
 	}
 	record := func(s *inlSite, st ast.Stmt, text string, need map[string]string) {
-		es.add(ns.fset, st.Pos(), st.End(), text)
-		done[st] = true
+		if st != nil {
+			es.add(ns.fset, st.Pos(), st.End(), text)
+			done[st] = true
+		}
 		sig := s.callee.fn.Type().(*types.Signature)
 		key := pkgShort[s.callee.pk.PkgPath] + "|" + recvStr(sig) + "|" + s.callee.fn.Name()
 		if !inlined[key] {
@@ -974,7 +1022,16 @@ func (ns *normState) inlineInBlock(pk *packages.Package, file *ast.File, body *a
 		}
 	}
 	stmtLists(body, func(list []ast.Stmt) {
-		for _, st := range list {
+		for i, st := range list {
+			if i+1 < len(list) && !covered(st) && !covered(list[i+1]) {
+				if ns.tryAssignCheck(pk, file, st, list[i+1], callees, func(s *inlSite, text string, need map[string]string) {
+					es.add(ns.fset, st.Pos(), list[i+1].End(), text)
+					done[st], done[list[i+1]] = true, true
+					record(s, nil, "", need)
+				}) {
+					continue
+				}
+			}
 			try(st)
 		}
 	})
@@ -1216,4 +1273,157 @@ func plainBefore(e ast.Expr, t *ast.CallExpr) bool {
 		}
 	}
 	return false
+}
+
+// tryAssignCheck handles  x, err := f(a…)  followed by  if err != nil { T }  (or a boolean flag):
+// T must end the function (return / panic) and contain no break/continue/goto; the if has no else.
+func (ns *normState) tryAssignCheck(pk *packages.Package, file *ast.File, st, next ast.Stmt, callees map[*types.Func]*inlCallee, emit func(*inlSite, string, map[string]string)) bool {
+	as, ok := st.(*ast.AssignStmt)
+	if !ok || len(as.Rhs) != 1 || (as.Tok != token.DEFINE && as.Tok != token.ASSIGN) {
+		return false
+	}
+	ce, ok := as.Rhs[0].(*ast.CallExpr)
+	if !ok {
+		return false
+	}
+	c := ns.calleeOf(pk, ce, callees)
+	if c == nil || numResults(c) != len(as.Lhs) || len(as.Lhs) < 2 {
+		return false
+	}
+	ifs, ok := next.(*ast.IfStmt)
+	if !ok || ifs.Init != nil || ifs.Else != nil || len(ifs.Body.List) == 0 {
+		return false
+	}
+	// the tested result
+	var lhs []string
+	for _, l := range as.Lhs {
+		id, isId := l.(*ast.Ident)
+		if !isId {
+			return false
+		}
+		lhs = append(lhs, id.Name)
+	}
+	j, takeWhen := -1, ""
+	cond := ifs.Cond
+	neg := false
+	for {
+		if pe, ok := cond.(*ast.ParenExpr); ok {
+			cond = pe.X
+			continue
+		}
+		if ue, ok := cond.(*ast.UnaryExpr); ok && ue.Op == token.NOT {
+			cond, neg = ue.X, !neg
+			continue
+		}
+		break
+	}
+	find := func(e ast.Expr) int {
+		id, ok := e.(*ast.Ident)
+		if !ok || id.Name == "_" {
+			return -1
+		}
+		for i, n := range lhs {
+			if n == id.Name {
+				return i
+			}
+		}
+		return -1
+	}
+	switch x := cond.(type) {
+	case *ast.Ident:
+		j = find(x)
+		takeWhen = "true"
+		if neg {
+			takeWhen = "false"
+		}
+	case *ast.BinaryExpr:
+		isNil := func(e ast.Expr) bool { id, ok := e.(*ast.Ident); return ok && id.Name == "nil" }
+		if (x.Op == token.NEQ || x.Op == token.EQL) && (isNil(x.Y) || isNil(x.X)) {
+			if isNil(x.Y) {
+				j = find(x.X)
+			} else {
+				j = find(x.Y)
+			}
+			takeWhen = "nonnil"
+			if (x.Op == token.EQL) != neg {
+				takeWhen = "nil"
+			}
+		}
+	}
+	if j < 0 {
+		return false
+	}
+	// T terminates and has no branch statements that could bind differently when copied
+	last := ifs.Body.List[len(ifs.Body.List)-1]
+	term := false
+	switch x := last.(type) {
+	case *ast.ReturnStmt:
+		term = true
+	case *ast.ExprStmt:
+		if call, ok := x.X.(*ast.CallExpr); ok {
+			if id, ok := call.Fun.(*ast.Ident); ok && id.Name == "panic" {
+				term = true
+			}
+		}
+	}
+	if !term {
+		return false
+	}
+	clean := true
+	ast.Inspect(ifs.Body, func(n ast.Node) bool {
+		switch n.(type) {
+		case *ast.BranchStmt, *ast.LabeledStmt, *ast.FuncLit, *ast.DeferStmt:
+			clean = false
+		}
+		return true
+	})
+	if !clean {
+		return false
+	}
+	s := &inlSite{ce, c, pk, file}
+	need, ok := ns.freeNamesOK(s)
+	if !ok {
+		return false
+	}
+	ns.check = &checkSpec{lhs: lhs, j: j, takeWhen: takeWhen, then: ns.srcText(ifs.Body.Pos(), ifs.Body.End()), used: map[string]bool{}}
+	defer func() { ns.check = nil }()
+	_, blk, labels, ok := ns.buildInline(s, "check")
+	if !ok {
+		return false
+	}
+	// declarations for names this statement introduces
+	var b strings.Builder
+	sig := c.fn.Type().(*types.Signature)
+	_ = sig
+	var resTypes []string
+	if c.decl.Type.Results != nil {
+		for _, f := range c.decl.Type.Results.List {
+			tt := ns.srcText(f.Type.Pos(), f.Type.End())
+			n := len(f.Names)
+			if n == 0 {
+				n = 1
+			}
+			for k := 0; k < n; k++ {
+				resTypes = append(resTypes, tt)
+			}
+		}
+	}
+	for i, l := range as.Lhs {
+		id := l.(*ast.Ident)
+		if id.Name == "_" {
+			return false
+		}
+		if as.Tok == token.DEFINE && pk.TypesInfo.Defs[id] != nil {
+			fmt.Fprintf(&b, "var %s %s\n_ = %s\n", id.Name, resTypes[i], id.Name)
+		}
+	}
+	b.WriteString(blk + "\n")
+	if ns.check.used["Check"] {
+		b.WriteString(labels[0] + ":\n" + ns.srcText(ifs.Pos(), ifs.End()) + "\n")
+	}
+	if ns.check.used["Cont"] {
+		b.WriteString(labels[1] + ":\n")
+	}
+	emit(s, b.String(), need)
+	return true
 }
